@@ -321,6 +321,9 @@ func (r *Report) Finish(verifDir string, canaries []Canary, started time.Time, e
 		"violations":  n[Violation] + n[Undecided],
 	}
 	evdir := filepath.Join(verifDir, "evidence")
+	if d := os.Getenv("GOLIBCHECK_EVIDENCE_DIR"); d != "" {
+		evdir = d // development only (tools/mut.sh): keep mutant runs from overwriting the real evidence
+	}
 	os.MkdirAll(evdir, 0o755)
 	if err := writeJSON(filepath.Join(evdir, r.Prop+".json"), ev); err != nil {
 		fmt.Printf("CHECKER-ERROR property=%s cannot write evidence: %v\n", r.Prop, err)
